@@ -17,7 +17,8 @@ LEVEL = "exploration"
 RULE = (
     "complete domain: nbits in {1,2,4} x order spellings x all 256 byte values at every position of arrays of length "
     "1..5 (neighbours = complement) + empty array; all 256 field tuples per byte through pack; round trips; with/without "
-    "output buffer; rejection matrix (dtype, nbits, order, buffer size); default order through FileWriter/FileReader. "
+    "output buffer; rejection matrix (dtype, nbits, order, buffer size); default order through FileWriter/FileReader; thorough adds one array per (depth, order) "
+    "whose unpacked length is 2**31 + 4099*(8/nbits), every element compared (index arithmetic beyond the int32 range). "
     "Non-trivial = every case except the empty-array ones"
 )
 ASSUMPTIONS = ["reference = bit-field definition evaluated with Python integers (vf.core.fixtures.ref_pack/ref_unpack)"]
@@ -39,6 +40,9 @@ def shards(tier: str, seed: int) -> list:
             out.append({"kind": "kernels", "nbits": nbits, "order": order, "maxlen": b["maxlen"]})
         out.append({"kind": "reject", "nbits": nbits})
         out.append({"kind": "file", "nbits": nbits})
+    if tier == "thorough":
+        # index-width boundary: one array per (depth, order) whose unpacked length crosses 2**31; one shard, run serially (about 3 GB at a time)
+        out.append({"kind": "huge", "cases": [[nb, o] for nb in b["nbits"] for o in ("big", "little")]})
     return out
 
 
@@ -52,6 +56,8 @@ def run_shard(shard: dict, ctx, res, only=None) -> None:
         _kernels(shard, res, only)
     elif kind == "reject":
         _reject(shard, res, only)
+    elif kind == "huge":
+        _huge(shard, res, only)
     else:
         _file(shard, ctx, res, only)
 
@@ -163,6 +169,74 @@ def _kernels(shard, res, only):
             res.outcome("pack/ok")
             res.nontrivial += 1
     res.sample({"nbits": nbits, "order": order, "example": {"byte": 0xB4, "unpacked": fx.ref_unpack(bytes([0xB4]), nbits, co).tolist()}}, cap=1)
+
+
+def _vec_unpack(chunk: np.ndarray, nbits: int, co: str) -> np.ndarray:
+    per = 8 // nbits
+    mask = (1 << nbits) - 1
+    out = np.empty((chunk.size, per), dtype=np.uint8)
+    for j in range(per):
+        sh = (8 - nbits * (j + 1)) if co == "big" else nbits * j
+        out[:, j] = (chunk >> sh) & mask
+    return out.reshape(-1)
+
+
+def _huge(shard, res, only):
+    import gc
+
+    from sigpyproc.io import bits
+
+    CH = 1 << 24
+    for nbits, co in shard["cases"]:
+        if only is not None and [nbits, co] != only:
+            continue
+        per = 8 // nbits
+        n = (1 << 31) // per + 4099  # unpacked length 2**31 + 4099*per: output offsets pass the int32 range
+        case = {"shard": shard, "inner": [nbits, co]}
+        res.evaluations += 1
+        probe = np.arange(256, dtype=np.uint8)
+        if not np.array_equal(_vec_unpack(probe, nbits, co), fx.ref_unpack(probe.tobytes(), nbits, co)):
+            res.violation({"site": "harness", "symptom": "vectorised reference != ref_unpack"}, case, "")
+            continue
+        arr = np.empty(n, dtype=np.uint8)
+        for lo in range(0, n, CH):
+            i = np.arange(lo, min(n, lo + CH), dtype=np.uint64)
+            arr[lo : lo + CH] = ((i * np.uint64(131)) ^ (i >> np.uint64(9)) ^ (i >> np.uint64(23))).astype(np.uint8)
+        try:
+            got = bits.unpack(arr, nbits, bitorder=co)
+        except Exception as e:  # noqa: BLE001
+            res.violation({"site": "bits.unpack", "symptom": f"raised {type(e).__name__} on an array of more than 2**31 samples"}, case, repr(e))
+            continue
+        bad = None
+        if got.dtype != np.uint8 or got.size != n * per:
+            bad = f"size {got.size} want {n * per}"
+        else:
+            for lo in range(0, n, CH):
+                want = _vec_unpack(arr[lo : lo + CH], nbits, co)
+                g = got[lo * per : lo * per + want.size]
+                if not np.array_equal(g, want):
+                    k = int(np.flatnonzero(g != want)[0])
+                    bad = f"first wrong sample at index {lo * per + k}: got {int(g[k])} want {int(want[k])}"
+                    break
+        if bad:
+            res.violation({"site": "bits.unpack", "symptom": "wrong values beyond 2**31 samples", "nbits": nbits, "order": co}, case, bad)
+            del got, arr
+            gc.collect()
+            continue
+        res.outcome("unpack/huge_ok")
+        try:
+            back = bits.pack(got, nbits, bitorder=co)
+        except Exception as e:  # noqa: BLE001
+            res.violation({"site": "bits.pack", "symptom": f"raised {type(e).__name__} on an array of more than 2**31 samples"}, case, repr(e))
+            continue
+        if back.size != n or not np.array_equal(back, arr):
+            k = int(np.flatnonzero(back[: min(back.size, n)] != arr[: min(back.size, n)])[0]) if back.size else -1
+            res.violation({"site": "bits.pack", "symptom": "pack(unpack(b)) != b beyond 2**31 samples", "nbits": nbits, "order": co}, case, f"size {back.size}/{n}, first wrong byte {k}")
+        else:
+            res.outcome("roundtrip/huge_ok")
+            res.nontrivial += 1
+        del got, arr, back
+        gc.collect()
 
 
 def _reject(shard, res, only):
